@@ -55,8 +55,11 @@ Definition args_family (v : var) : bool :=
 (* ------------------------------------------------------------------------------------ *)
 (* external semantics (oracles): regex keys, operators                                   *)
 (* ------------------------------------------------------------------------------------ *)
-(* key-pattern family:  RxAny = "."   RxLit al ar lit = [^]lit[$]  (lit has no metacharacter) *)
-Inductive rxpat := RxAny | RxLit (al ar : bool) (lit : bytes).
+(* key-pattern family:  RxAny = "."   RxLit al ar lit = [^]lit[$]  (lit has no metacharacter);
+   the two escape-class patterns exist to exhibit what lower-casing a pattern's source does *)
+Inductive rxpat := RxAny | RxLit (al ar : bool) (lit : bytes)
+  | RxNonDigits      (* ^\D+$ *)
+  | RxDigits.        (* ^\d+$ *)
 
 Inductive opk := OpStreq | OpContains | OpBeginsWith | OpEndsWith | OpEq | OpGt | OpUncond | OpNoMatch.
 Record op := mk_op { op_kind : opk; op_arg : bytes }.
@@ -408,13 +411,22 @@ Definition rx_small (p : rxpat) (k : bytes) : bool :=
   | RxLit al ar lit =>
     if al then (if ar then bytes_eqb lit k else is_prefix lit k)
     else (if ar then is_suffix lit k else is_substring lit k)
+  | RxNonDigits => negb (is_empty k) && forallb (fun c => negb (in_rng 48 57 c)) k
+  | RxDigits => negb (is_empty k) && forallb (fun c => in_rng 48 57 c) k
   end.
 Definition rx_small_low (p : rxpat) : rxpat :=
-  match p with RxAny => RxAny | RxLit al ar lit => RxLit al ar (lower_ascii lit) end.
+  match p with
+  | RxAny => RxAny
+  | RxLit al ar lit => RxLit al ar (lower_ascii lit)
+  | RxNonDigits => RxDigits      (* strings.ToLower("^\D+$") = "^\d+$" *)
+  | RxDigits => RxDigits
+  end.
 Definition rx_small_src (p : rxpat) : bytes :=
   match p with
   | RxAny => [46]
   | RxLit al ar lit => (if al then [94] else []) ++ lit ++ (if ar then [36] else [])
+  | RxNonDigits => [94; 92; 68; 43; 36]
+  | RxDigits => [94; 92; 100; 43; 36]
   end.
 
 (* strconv.Atoi with the error dropped: 0 on a syntax error, the clamped value on a range error *)
@@ -565,3 +577,14 @@ Definition wf_map (m : gomap) : Prop := Forall bucket_ok m /\ NoDup (map fst m).
 Definition wf_state (st : state) : Prop := forall i, wf_map (get_map st i).
 
 Definition ok_oracle (ord : oracle) : Prop := forall p m, Permutation (ord p m) m.
+
+(* the ids a phase reports: exactly the in-phase rules (non-zero id) that fire in the state their
+   predecessors left, in configuration order *)
+Fixpoint spec_fired (X : sem) (ord : oracle) (st : state) (ph : N) (i : nat) (rules : list rule) : list N :=
+  match rules with
+  | [] => []
+  | r :: rest =>
+    let st' := if in_phase ph r then snd (eval_rule X (sub ord i) st r) else st in
+    (if in_phase ph r && rule_fires X (sub ord i) st r && negb (r_id r =? 0) then [r_id r] else [])
+    ++ spec_fired X ord st' ph (S i) rest
+  end.
